@@ -167,6 +167,13 @@ theorem half_open_single_probe (c : Cfg) (s : St) (hho : s.state = .halfOpen)
   | nil => rfl
   | cons t r ih => simp [mrun, mstep, allow, hho, hprobe, ih]
 
+/-- non-vacuity: a reachable state with `state = HALF_OPEN ∧ probe` -/
+example : Mono [Op.failure .transient 1, .failure .transient 2, .failure .transient 3, .allow 8] ∧
+    (mrun exCfg .init [.failure .transient 1, .failure .transient 2, .failure .transient 3,
+      .allow 8]).2.state = .halfOpen ∧
+    (mrun exCfg .init [.failure .transient 1, .failure .transient 2, .failure .transient 3,
+      .allow 8]).2.probe = true := by decide
+
 /-- after the timeout exactly one caller is admitted: the first `allow` at or after
 `t0 + recovery` is the probe, and every further `allow` (any number, any time) is rejected until
 a `record_*` arrives. -/
@@ -232,7 +239,7 @@ theorem probe_cancel_frees_slot (c : Cfg) (s : St) (hho : s.state = .halfOpen) (
   simp [recordCancel, allow, hho]
 
 /-- in HALF_OPEN without an outstanding probe the next caller is admitted as the probe -/
-theorem half_open_free_slot_admits (c : Cfg) (s : St) (hho : s.state = .halfOpen)
+theorem half_open_free_slot_allows (c : Cfg) (s : St) (hho : s.state = .halfOpen)
     (hfree : s.probe = false) (now : Nat) :
     allow c s now = ((true, .halfOpen, none), { s with probe := true }) := by
   simp [allow, hho, hfree]
